@@ -164,6 +164,22 @@ def main():
                     run.violation(f"pipeline:many:{fam}:row", f"{fam}: row {i} of {count} jointly processed recordings differs from that recording processed alone "
                                   f"(max rel diff {np.max(np.abs(rows[i] - alone_i) / np.abs(alone_i)):.2e})", dict(kind="pipeline-many", family=fam, count=count, row=i))
             run.case(("many", fam, count))
+    # ---- the windows of ONE recording of a quiet site in m/s (amplitudes ~1e-10: every sample of every window is "close to" every
+    #      other one in absolute terms, same length, same time step, same meta): each row is still the curve of ITS window
+    nq, dtq = 128, 0.01
+    quiet = h.SeismicRecording3C(*[h.TimeSeries((np.sin(2 * np.pi * (2 + c_) * np.arange(8 * nq + 1) * dtq * (1 + 0.3 * np.arange(8 * nq + 1) / (8 * nq))) +
+                                                 0.7 * rng.normal(size=8 * nq + 1)) * 2.0 ** -33, dtq) for c_ in range(3)])
+    wins = quiet.split(nq * dtq)
+    for fam in families:
+        with warnings.catch_warnings():
+            warnings.simplefilter("ignore")
+            rows = rows_of(h.process(wins, settings(fam, "frequency_domain_resampling", 0)))
+            alone_rows = [rows_of(h.process([w_], settings(fam, "frequency_domain_resampling", 0)))[0] for w_ in wins]
+        if len(rows) != len(wins) or not all(np.allclose(r_, a_, rtol=1e-12, atol=0) for r_, a_ in zip(rows, alone_rows)):
+            bad_ = [i for i, (r_, a_) in enumerate(zip(rows, alone_rows)) if not np.allclose(r_, a_, rtol=1e-12, atol=0)]
+            run.violation(f"pipeline:quiet-site:{fam}", f"{fam}: {len(wins)} windows of one recording with amplitudes ~1e-10: rows {bad_} are not the curves of their windows "
+                          f"processed alone ({len(rows)} rows)", dict(kind="pipeline-quiet", family=fam))
+        run.case(("quiet", fam))
     return run.finish(
         rule="every arrangement of recordings over 3 time-step classes x 3 policies x 4 Nyquist classes of spec/Pipeline.tla (quick: all of "
              "length <= 3 and a seeded third of length 4), processed jointly under traditional / single-azimuth / RotDpp / azimuthal (and "
